@@ -340,8 +340,8 @@ package smtp
 //@   ensures @C10 refused-unless-available: isTLS(old(c)) && old(c.conn) == c.conn || c.server.TLSConfig == nil ==> c.lastCode == 502 && c.replies == old(c.replies) + 1
 //@   ensures @C10 refusal-changes-nothing: c.conn == old(c.conn) ==> c.session == old(c.session) && c.helo == old(c.helo) && c.didAuth == old(c.didAuth) && c.text == old(c.text) && c.fromReceived == old(c.fromReceived) && c.cbLogout == old(c.cbLogout) && c.cbReset == old(c.cbReset) && c.lineLimitReader == old(c.lineLimitReader)
 //@   ensures @C04 at-least-one-final-reply: c.finals >= old(c.finals) + 1
-//@   ensures @C09,C10 upgrade-forgets-plaintext-state: c.conn != old(c.conn) ==> isTLS(c) && c.helo == "" && !c.didAuth && !c.fromReceived && len(c.recipients) == 0 && c.bdatPipe == nil && c.session == nil
-//@   ensures @C10 upgrade-new-text-conn: c.conn != old(c.conn) ==> c.text != old(c.text) && !wasalloc(c.text)
+//@   ensures @C09,C10,C12 upgrade-forgets-plaintext-state: c.conn != old(c.conn) ==> isTLS(c) && c.helo == "" && !c.didAuth && !c.fromReceived && len(c.recipients) == 0 && c.bdatPipe == nil && c.session == nil
+//@   ensures @C10,C12 upgrade-new-text-conn: c.conn != old(c.conn) ==> c.text != old(c.text) && !wasalloc(c.text)
 //@   ensures @C10 upgrade-new-empty-buffer: c.conn != old(c.conn) ==> !wasalloc(c.text.R) && c.text.R.pos == 0
 //@   ensures @C10 upgrade-new-limiter-over-tls: c.conn != old(c.conn) ==> !wasalloc(c.lineLimitReader) && c.lineLimitReader.R == c.conn
 //@   ensures @C10 upgrade-limiter-reset: c.conn != old(c.conn) ==> c.lineLimitReader.LineLimit == c.server.MaxLineLength && c.lineLimitReader.curLineLength == 0
